@@ -35,6 +35,16 @@ short = {
  'C17-c': ("value/structreflect.go EqualsUsing: reflect.DeepEqual when both sides are structs of one Go type", "two reflected structs of the same type whose omitted fields are empty in different ways (nil against empty slice or map)"),
  'C18-c': ("value/reflectcache.go CanOmit: three ifs folded into a switch, omitzero is no longer consulted when omitempty is set too", "a struct-kind field (or one with IsZero) tagged omitempty AND omitzero holding its zero value"),
  'C20-c': ("typed/reconcile_schema.go doMap: 'owns something here' tests the direct members only", "a struct turning atomic of which a manager owns only paths two or more levels down"),
+ 'C04-d': ("value/scalar.go IntCompare: compares by the sign of lhs - rhs, which wraps for integers more than 2^63 apart", "a keyed list or set with three integer keys spanning more than 2^63 (-6e18, 0, 6e18) owned by one manager, another manager changing a field under the extreme one"),
+ 'C06-d': ("fieldpath/set.go EnsureNamedFieldsAreMembers rewritten as one loop: a named field that is already a member leaves before its type is taken, so nothing beneath it is completed", "one manager owning a struct itself (applied as {}), another owning leaves two struct levels beneath it, the second applying again"),
+ 'C08-d': ("merge/update.go Update: the updater's new set is built by inserting the touched paths into the result of Difference, which shares child sets with the caller's record", "an updater that already owns a nested field and now touches a sibling of it"),
+ 'C09-d': ("typed/reconcile_schema.go: the pooled walker keeps its collected toRemove/toAdd when a reconciliation ends with an error", "a reconciliation that collects a change and then fails (unresolvable type), followed by any other reconciliation"),
+ 'C10-d': ("value/jsontagutil.go OmitZeroFunc: the addressable copy for a pointer-receiver IsZero hoisted out of the cached closure, one box shared by all goroutines", "an omitzero field of a type with IsZero on the pointer receiver inside a struct held by value in a map, two goroutines"),
+ 'C13-d': ("typed/validate.go visitMapItems: a null entry returns before the field lookup, so an undeclared field with a null value is accepted", "the 'undeclared field' corruption with a null payload on a map type without element type"),
+ 'C16-d': ("fieldpath/element.go PathElement.Compare: indices compared by subtraction, which wraps when they are 2^63 or more apart", "index path elements -2^62, 0, 2^62 under one parent"),
+ 'C17-d': ("value/map.go MapCompareUsing: with one side empty returns the length difference instead of -1/0/+1 while Less is Compare == -1", "an empty map against a map with two or more entries"),
+ 'C18-d': ("value/valuereflect.go reuse: the kind of a reused holder is recomputed only when the Go type changes, but nil-ness decides between null and list/map", "two consecutive same-typed slices or maps of different nil-ness through one holder (adjacent fields, [][]T, map values)"),
+ 'C20-d': ("typed/reconcile_schema.go visitListItems: an item that is a member counts as 'already owned whole' even with paths recorded beneath it", "the ELEMENT type of an associative list turning atomic, a record holding the item and fields beneath it"),
  'C07-b': ("the aliasing in EnsureNamedFieldsAreMembers once more (seen from C07: a re-apply rewrites the applier's own record)", "a second apply by a manager whose record has 3, 5–7 leaf members at a nested struct level and a struct sibling sorting before one of them"),
  'C08-b': ("fieldpath/set.go SetNodeMap.RecursiveDifference: binary-search fast-forward keeps `s.members[:i]` with the receiver's capacity, later appends write into the receiver", "s2 with children only at some level, s with an earlier child and a later child that loses something (reached through reconciliation when a nested struct turns atomic)"),
  'C09-b': ("schema/elements.go Resolve: a field-level elementRelationship override is written into the shared named LIST type instead of a copy", "a named list type referenced both plainly and with an override; any earlier call that resolves the overriding reference changes later results"),
